@@ -39,6 +39,10 @@ LEVEL_TEXT = (
     "products over the same lists; COOData addition concatenates indices "
     "and data in the same order. Numerical block identities are not "
     "decided.")
+LEVEL_TEXT += (
+    " Added after the seeding phase: (L2) tolocal / fromlocal / inverse / "
+    "addition, (L4) the ElementVector constructor and (L6) asm are "
+    "decided by symbolic runs instead of text comparison.")
 LEVEL_NOTE = (
     "Trusted: numpy reshape/moveaxis/flatten/split/cumsum semantics. The "
     "@-composite (equal_dofnum) branch of CompositeBasis is outside the "
